@@ -1,5 +1,5 @@
 """C16 — outcome-probability bookkeeping."""
-import itertools
+import itertools, re
 from fractions import Fraction
 import numpy as np
 from common import flow
@@ -93,41 +93,107 @@ def parse_dist(vals):
 ERRMAP = {1: "ValueError", 2: "ValueError", 3: "ValueError", 4: "ValueError", 5: "KeyError", 6: "ValueError", 7: "ValueError", 8: "ValueError", 9: "IndexError", 10: "TypeError"}
 
 
+class _Opaque:
+    """an index argument of an unrelated type"""
+
+
+def index_probe(ctx, sub, site, get, shape, seq, case, rng_seed):
+    """__getitem__ / state with EVERY kind of argument, as coded: ints (incl. negative = counted from the end, IndexError
+    outside), tuples (in range: covered by the caller; here wrong rank -> ValueError, components outside their range -> NOT
+    checked by the code: another entry or IndexError), other types (TypeError) — implementation vs the model's index_get"""
+    import random
+    m = ctx.get_model()
+    rr = random.Random(rng_seed)
+    n = len(seq)
+    args = [("int", i) for i in range(-n - 2, n + 2)]
+    rank = len(shape)
+    args += [("tuple", tuple([0] * (rank + 1))), ("tuple", tuple([0] * max(0, rank - 1))), ("tuple", ())]
+    for _ in range(6):
+        t = [rr.randrange(k) for k in shape]
+        if rank:
+            a = rr.randrange(rank)
+            t[a] = rr.choice([shape[a], shape[a] + 1, -1, -shape[a], -shape[a] - 1, 2 * shape[a]])
+        args.append(("tuple", tuple(t)))
+    args += [("other", None), ("other", 1.0), ("other", [0] * rank), ("other", "0"), ("other", True), ("other", np.int64(0)), ("other", _Opaque())]
+    for kind, a in args:
+        try:
+            impl = ("ok", float(get(a)))
+        except Exception as e:
+            impl = ("err", type(e).__name__)
+        if kind == "int":
+            zs = [0, 1, a]
+        elif kind == "tuple":
+            zs = [1, len(a)] + list(a)
+        else:
+            zs = [2, 0]
+        st, val = m.try_call("md.index_get", [len(shape)] + list(shape) + zs, seq)
+        mod = ("ok", float(val[0])) if st == "ok" else ("err", ERRMAP.get(val))
+        ctx.count(sub, key=("index", tuple(shape), n, kind, repr(a)), nontrivial=False, label="index-%s-%s" % (kind, mod[0]))
+        if impl != mod:
+            ctx.violation(sub, site, "index-argument", "argument %r on shape %s: implementation %s, model %s" % (a, shape, impl, mod), dict(case, index_arg=repr(a)))
+
+
+def case_ps(case):
+    """entries are given either as exact fractions (converted to the nearest double) or as float.hex strings (exact doubles)"""
+    if "ps_hex" in case:
+        return [float.fromhex(h) for h in case["ps_hex"]]
+    return [float(Fraction(p)) for p in case["ps"]]
+
+
 def chk_dist(ctx, case):
     from quara.objects.multinomial_distribution import MultinomialDistribution as MD
     import warnings
     m = ctx.get_model()
-    shape = case["shape"]; ps = [float(Fraction(p)) for p in case["ps"]]
+    ps = case_ps(case)
+    shape_arg = case["shape"]                      # None = the shape argument is omitted
+    shape = [len(ps)] if shape_arg is None else shape_arg
+    has_eps = "eps_zero" in case                   # the eps_zero ARGUMENT (None / 0.0 select the default 1e-8)
+    eps_arg = (None if case["eps_zero"] is None else float.fromhex(case["eps_zero"])) if has_eps else None
+    pkey = tuple(case.get("ps_hex") or case["ps"]) + (case.get("eps_zero", "-"),)
     # --- constructor
     try:
         with warnings.catch_warnings():
             warnings.simplefilter("ignore")
-            d = MD(np.array(ps, dtype=float), shape=tuple(shape))
+            kw = {"eps_zero": eps_arg} if has_eps else {}
+            d = MD(np.array(ps, dtype=float), shape=None if shape_arg is None else tuple(shape_arg), **kw)
         impl = ("ok", d)
     except Exception as e:
         impl = ("err", type(e).__name__)
-    st, val = m.try_call("md.construct", [1, len(shape)] + shape, [1e-8] + ps)
-    ctx.count("dist", key=("construct", tuple(shape), tuple(case["ps"])), label="construct-" + st)
+    st, val = m.try_call("md.construct_arg", [0 if shape_arg is None else 1, 0 if eps_arg is None else 1, len(shape)] + shape,
+                         [0.0 if eps_arg is None else eps_arg] + ps)
+    ctx.count("dist", key=("construct", tuple(shape), pkey), label=case.get("label", "construct") + "-" + st)
     if st == "err":
         if impl[0] != "err" or impl[1] != ERRMAP.get(val):
-            ctx.violation("dist", "MultinomialDistribution.__init__", "error-kind", "model rejects with %s, implementation %s" % (val, impl), case)
+            ctx.violation("dist", "MultinomialDistribution.__init__", "error-kind", "model rejects with %s, implementation %s" % (val, impl if impl[0] == "err" else list(impl[1].ps)), case)
         return
     if impl[0] == "err":
         ctx.violation("dist", "MultinomialDistribution.__init__", "unexpected-raise", "implementation raised %s, model accepts" % impl[1], case)
         return
     sh_m, zero_m, ps_m = parse_dist(val)
+    if [x == 0 for x in d.ps] != [x == 0 for x in ps_m]:
+        # the DECISION which entries are zeroed is exact on both sides (same doubles, same threshold): no band
+        ctx.violation("dist", "MultinomialDistribution.__init__", "zeroing-decision", "eps_zero=%s input %s: implementation zeroes %s, model (prob < eps_zero) zeroes %s" % (
+            eps_arg, ps, [i for i, x in enumerate(d.ps) if x == 0], [i for i, x in enumerate(ps_m) if x == 0]), case)
+        return
     if list(d.shape) != sh_m or bool(d.is_zero_dist) != zero_m or not flow.allclose(list(d.ps), ps_m, 1e-12):
         ctx.violation("dist", "MultinomialDistribution.__init__", "value", "constructor output differs: impl %s model %s" % (list(d.ps), ps_m), case)
         return
+    if float(d.eps_zero) != (eps_arg if eps_arg else 1e-8):
+        ctx.violation("dist", "MultinomialDistribution.__init__", "eps-zero-default", "eps_zero argument %s stored as %s" % (eps_arg, d.eps_zero), case)
     if not zero_m and (abs(sum(d.ps) - 1) > 1e-7 or min(d.ps) < 0):
         ctx.violation("dist", "MultinomialDistribution.__init__", "not-normalised", "ps=%s" % list(d.ps), case)
     base_ps = [float(x) for x in d.ps]
     # --- getitem on every multi-index
+    from quara.objects.prob_dist import ProbDist
+    legacy = ProbDist(np.array(base_ps), tuple(shape))
     for idx in itertools.product(*[range(n) for n in shape]):
         v = float(m.call("md.getitem", [len(shape)] + shape + [len(idx)] + list(idx), base_ps)[0])
-        ctx.count("dist", key=("getitem", tuple(shape), tuple(case["ps"]), idx), nontrivial=False)
+        ctx.count("dist", key=("getitem", tuple(shape), pkey, idx), nontrivial=False)
         if float(d[tuple(idx)]) != v:
             ctx.violation("dist", "MultinomialDistribution.__getitem__", "value", "d[%s]=%s model %s" % (idx, d[tuple(idx)], v), dict(case, idx=list(idx)))
+        if float(legacy[tuple(idx)]) != v:      # objects/prob_dist.py (reshape-based access): same row-major layout
+            ctx.violation("dist", "ProbDist.__getitem__", "value", "ProbDist[%s]=%s model %s" % (idx, legacy[tuple(idx)], v), dict(case, idx=list(idx)))
+    index_probe(ctx, "dist", "MultinomialDistribution.__getitem__", lambda a: d[a], shape, base_ps, case, len(base_ps) * 7 + len(shape))
     # --- marginals for the listed subsets / orders
     for rem in case["remains"]:
         try:
@@ -137,7 +203,7 @@ def chk_dist(ctx, case):
         except Exception as e:
             impl = ("err", type(e).__name__)
         st, val = m.try_call("md.marginalize", [len(shape)] + shape + [len(rem)] + list(rem), base_ps)
-        ctx.count("dist", key=("marg", tuple(shape), tuple(case["ps"]), tuple(rem)), label="marg-" + st, nontrivial=len(shape) >= 2)
+        ctx.count("dist", key=("marg", tuple(shape), pkey, tuple(rem)), label="marg-" + st, nontrivial=len(shape) >= 2)
         sub = dict(case, remains=[list(rem)])
         if st == "err":
             if impl[0] != "err" or impl[1] != ERRMAP.get(val):
@@ -157,9 +223,10 @@ def chk_dist(ctx, case):
         for idx in itertools.product(*[range(n) for n in shape]):
             expect[tuple(idx[a] for a in keep)] += full[idx]
         e = expect.ravel()
-        e = np.where(e < 1e-8, 0.0, e)
-        if e.sum() > 0:
-            e = e / e.sum()
+        if (e < 1e-8).any():            # as documented: sub-threshold entries are zeroed and (only then) the rest is renormalised
+            e = np.where(e < 1e-8, 0.0, e)
+            if e.sum() > 0:
+                e = e / e.sum()
         if not flow.allclose(list(md.ps), list(e), 1e-9):
             ctx.violation("dist", "MultinomialDistribution.marginalize", "not-sum-over-removed", "remain=%s got %s expected %s" % (rem, list(md.ps), list(e)), sub)
     # --- conditionals
@@ -171,7 +238,7 @@ def chk_dist(ctx, case):
         except Exception as e:
             impl = ("err", type(e).__name__)
         st, val = m.try_call("md.conditionalize", [len(shape)] + shape + [len(idxs)] + list(idxs) + [len(vals)] + list(vals), base_ps)
-        ctx.count("dist", key=("cond", tuple(shape), tuple(case["ps"]), tuple(idxs), tuple(vals)), label="cond-" + st, nontrivial=len(shape) >= 2)
+        ctx.count("dist", key=("cond", tuple(shape), pkey, tuple(idxs), tuple(vals)), label="cond-" + st, nontrivial=len(shape) >= 2)
         sub = dict(case, conds=[[list(idxs), list(vals)]], remains=[])
         if st == "err":
             if impl[0] != "err" or impl[1] != ERRMAP.get(val):
@@ -208,6 +275,9 @@ def chk_dist(ctx, case):
                     bad = True
             if bad:
                 ctx.violation("dist", "MultinomialDistribution.conditionalize", "joint-neq-marginal-times-conditional", "cond=%s|%s" % (idxs, vals), sub)
+    # --- history: all the queries above ran on ONE object, each compared with the model of a fresh one; the object itself is unchanged
+    if [float(x) for x in d.ps] != base_ps or list(d.shape) != list(shape):
+        ctx.violation("dist", "MultinomialDistribution", "query-mutates-object", "after the queries ps/shape are %s %s, were %s %s" % (list(d.ps), d.shape, base_ps, shape), case)
 
 
 def gen_dist_cases(ctx, n):
@@ -231,6 +301,10 @@ def gen_dist_cases(ctx, n):
             remains.append([0, 0])         # duplicate
         if rng.random() < 0.1:
             remains.append([-1])
+        if rng.random() < 0.25 and r >= 1:
+            # both kinds of invalid entry in one listing: whichever comes FIRST decides (KeyError for a repeat, ValueError for out of range)
+            a = rng.randrange(r)
+            remains.append(rng.choice([[a, a, r], [a, r, a], [r, a, a], [a, -1, a], [a, a, -1], [a, a, a]]))
         conds = []
         for _ in range(4):
             k = rng.randint(0, max(0, r - 1)) if r > 1 else rng.randint(0, 1)
@@ -261,10 +335,198 @@ def gen_dist_cases(ctx, n):
     return cases
 
 
+T8 = 1e-8          # the double the literal 1e-8 denotes: validation tolerance and default eps_zero
+
+
+def gen_boundary_cases(ctx, n):
+    """EXACT boundary values (all entries are doubles handed unchanged to implementation and model, so both sides must take the
+    SAME decision, no band): entries equal to the zero threshold / one ulp below / one ulp above it for dyadic and decimal
+    eps_zero arguments (None and 0.0 select 1e-8); negative entries at / inside / one ulp outside the validator's accepted range
+    [-1e-8, 0), also combined with thresholds finer than 1e-8; sums just inside / outside 1 +- 1e-8; parents built with a fine
+    eps_zero whose MARGINAL entries land exactly on / next to the default threshold of the marginal's own constructor"""
+    import math
+    rng = ctx.rng
+    up = lambda x: math.nextafter(x, math.inf)
+    dn = lambda x: math.nextafter(x, -math.inf)
+    eps_args = [None, 0.0, 0.25, 0.125, 2.0 ** -10, 2.0 ** -20, 2.0 ** -30, 2.0 ** -40, T8, 1e-10, 1e-12, 1e-3, 0.1]
+    cases = []
+
+    def add(label, ps, shape, eps, remains=(), conds=()):
+        c = {"label": label, "shape": shape, "ps_hex": [float(x).hex() for x in ps], "remains": [list(r) for r in remains], "conds": [list(x) for x in conds]}
+        if eps != "absent":
+            c["eps_zero"] = None if eps is None else float(eps).hex()
+        cases.append(c)
+
+    def balance(special, nrest):
+        """nrest >= 1 further entries (multiples of 1/64 + one balancing entry) so that everything sums to 1 up to one rounding"""
+        tot = sum(Fraction(x) for x in special)
+        ws = [rng.randint(1, 20) for _ in range(nrest)]
+        rest = [float((1 - tot) * w / sum(ws)) for w in ws]
+        out = list(special) + rest
+        rng.shuffle(out)
+        return out
+
+    i = 0
+    while len(cases) < n:
+        eps = eps_args[i % len(eps_args)]
+        eff = eps if eps else T8
+        kind = ["at", "below", "above", "mixed", "neg", "neg-fine", "all-at", "all-below"][(i // len(eps_args)) % 8]
+        i += 1
+        if kind == "at":
+            sp = [eff] * rng.randint(1, 2)
+        elif kind == "below":
+            sp = [dn(eff)] + ([eff / 2] if rng.random() < 0.5 else [])
+        elif kind == "above":
+            sp = [up(eff)]
+        elif kind == "mixed":
+            sp = [eff, dn(eff), up(eff), 0.0][: rng.randint(2, 4)]
+        elif kind == "neg":
+            sp = [rng.choice([-T8, dn(-T8), -T8 / 2, up(-T8), -2.0 ** -40, -0.0])] + ([eff] if rng.random() < 0.5 else [])
+        elif kind == "neg-fine":
+            if eff >= T8:
+                continue
+            sp = [rng.choice([-eff, dn(-eff), up(-eff), -T8, -T8 / 2, -5e-9])]       # inside [-1e-8, -eps_zero]: accepted AND below the threshold
+        elif kind == "all-at":
+            if eff > 0.5:
+                continue
+            k = rng.randint(2, 4)
+            add("boundary:" + kind, [eff] * k, None, eps)                              # nothing is below the threshold: sum validation decides
+            continue
+        else:
+            add("boundary:" + kind, [dn(eff)] * rng.randint(1, 4), None, eps)          # everything below: the zero distribution
+            continue
+        if sum(abs(x) for x in sp) >= 0.9:
+            continue
+        ps = balance(sp, rng.randint(1, 4))
+        nn = len(ps)
+        shape = None if rng.random() < 0.4 else rng.choice([[nn]] + [[a, nn // a] for a in range(2, nn) if nn % a == 0])
+        rank = 1 if shape is None else len(shape)
+        remains = [[0]] + ([[1], [1, 0]] if rank == 2 else [])
+        conds = [[[0], [0]]] + ([[[1], [0]]] if rank == 2 else [])
+        add("boundary:" + kind, ps, shape, eps if (eps is not None or rng.random() < 0.5) else "absent", remains, conds)
+    # sums just inside / outside the validation tolerance (exact double arithmetic: dyadic entries)
+    for dlt, lab in [(2.0 ** -27, "in"), (2.0 ** -26, "out"), (-2.0 ** -27, "in"), (-2.0 ** -26, "out")]:
+        add("boundary:sum-" + lab, [0.5, 0.5 + dlt], None, "absent")
+        add("boundary:sum-" + lab, [0.25, 0.25, 0.25, 0.25 + dlt], [2, 2], None, [[0]], [[[0], [1]]])
+    # marginal entries on / next to the marginal's own (default) threshold; the parent keeps them (fine eps_zero)
+    for row, lab in [([T8 / 2, T8 / 2], "at"), ([T8 / 4, T8 / 4], "below"), ([T8, 0.0], "at"), ([dn(T8), 0.0], "below"), ([up(T8), 0.0], "above"),
+                     ([0.0, T8], "at")]:      # (sums that ROUND onto the threshold are excluded: float rounding is not modelled)
+        for fine in (2.0 ** -40, 1e-12):
+            big = [float(Fraction(3, 8) - Fraction(row[0])), float(Fraction(5, 8) - Fraction(row[1]))]
+            first = rng.random() < 0.5
+            ps = (row + big) if first else (big + row)
+            add("boundary:marginal-" + lab, ps, [2, 2], fine, [[0], [1], [0, 1]], [[[0], [0]], [[0], [1]], [[1], [0]]])
+            add("boundary:marginal-" + lab, [ps[0], ps[2], ps[1], ps[3]], [2, 2], fine, [[1], [0]], [[[1], [0]], [[1], [1]]])
+    return cases
+
+
+def chk_validate(ctx, case):
+    """validate_prob_dist called directly: explicit eps, validate_sum on/off, raise_error off (warning only, never raises)"""
+    from quara.math.probability import validate_prob_dist
+    import io, contextlib
+    m = ctx.get_model()
+    ps = case_ps(case)
+    eps = None if case["eps"] is None else float.fromhex(case["eps"])
+    vs = bool(case["validate_sum"])
+    try:
+        validate_prob_dist(np.array(ps, dtype=float), eps=eps, validate_sum=vs); impl = "ok"
+    except Exception as e:
+        impl = type(e).__name__
+    st, val = m.try_call("md.validate", [1 if vs else 0, 0 if eps is None else 1], [0.0 if eps is None else eps] + ps)
+    mod = "ok" if st == "ok" else ERRMAP.get(val)
+    ctx.count("dist", key=("validate", tuple(case["ps_hex"]), case["eps"], vs), nontrivial=False, label="validate-" + st)
+    if impl != mod:
+        ctx.violation("dist", "validate_prob_dist", "decision", "ps=%s eps=%s validate_sum=%s: implementation %s, model %s" % (ps, eps, vs, impl, mod), case)
+    buf = io.StringIO()
+    try:
+        with contextlib.redirect_stdout(buf):
+            validate_prob_dist(np.array(ps, dtype=float), eps=eps, validate_sum=vs, raise_error=False)
+        warned = "Warning" in buf.getvalue()
+        if warned != (mod != "ok"):
+            ctx.violation("dist", "validate_prob_dist", "warning-branch", "raise_error=False: warning printed %s, model verdict %s" % (warned, mod), case)
+    except Exception as e:
+        ctx.violation("dist", "validate_prob_dist", "raises-with-raise_error-false", "raised %s" % type(e).__name__, case)
+
+
+def gen_validate_cases(ctx, n):
+    import math
+    rng = ctx.rng
+    up = lambda x: math.nextafter(x, math.inf)
+    dn = lambda x: math.nextafter(x, -math.inf)
+    out = []
+    for i in range(n):
+        eps = [None, T8, 2.0 ** -20, 0.125, 1e-3, 2.0 ** -30][i % 6]
+        e = T8 if eps is None else eps
+        neg = rng.choice([-e, dn(-e), up(-e), -e / 2, -2 * e, 0.0, -0.0])
+        k = rng.randint(1, 3)
+        rest = [rng.randint(1, 8) / 16.0 for _ in range(k)]
+        tot = sum(rest)
+        rest = [x / tot for x in rest] if rng.random() < 0.7 else rest          # sum 1 (up to rounding) or clearly not
+        if rng.random() < 0.3 and e >= 2.0 ** -30:
+            rest[0] += rng.choice([e / 2, 2 * e, -e / 2, -2 * e])              # sum near 1: inside / outside the tolerance, not ON it
+        ps = rest + [neg]
+        rng.shuffle(ps)
+        vs = rng.random() < 0.6
+        off = abs(sum(Fraction(x) for x in ps) - 1)
+        if abs(off - Fraction(e)) < Fraction(e) / 1000:
+            vs = False        # the SUM would sit on its tolerance up to float rounding (not modelled); the entry tests stay exact
+        out.append({"ps_hex": [float(x).hex() for x in ps], "eps": None if eps is None else float(eps).hex(), "validate_sum": vs})
+    return out
+
+
+def chk_sampling(ctx, case):
+    """execute_random_sampling: `size` count vectors over the SERIAL index; every vector sums to num, impossible entries are never
+    drawn, an int seed reproduces the draw, and the pooled frequencies stay within a Hoeffding bound of ps (entry k <-> serial index k)"""
+    from quara.objects.multinomial_distribution import MultinomialDistribution as MD
+    import warnings
+    ps = case_ps(case)
+    shape = case["shape"]
+    with warnings.catch_warnings():
+        warnings.simplefilter("ignore")
+        d = MD(np.array(ps, dtype=float), shape=tuple(shape))
+    num, size, seed = case["num"], case["size"], case["seed"]
+    s1 = d.execute_random_sampling(num, size, seed)
+    s2 = d.execute_random_sampling(num, size, np.int64(seed))
+    s3 = d.execute_random_sampling(num, size, np.random.Generator(np.random.MT19937(seed)))
+    ctx.count("sampling", key=(tuple(case["ps"]), tuple(shape), num, size, seed), nontrivial=len(shape) >= 2)
+    site = "MultinomialDistribution.execute_random_sampling"
+    if len(s1) != size or any(len(v) != len(d.ps) or int(np.sum(v)) != num for v in s1):
+        ctx.violation("sampling", site, "shape", "expected %d vectors of length %d summing to %d" % (size, len(d.ps), num), case)
+        return
+    if any(int(v[k]) != 0 for v in s1 for k in range(len(d.ps)) if d.ps[k] == 0):
+        ctx.violation("sampling", site, "impossible-outcome-drawn", "an entry of probability 0 was drawn", case)
+    if not all(np.array_equal(a, b) and np.array_equal(a, c) for a, b, c in zip(s1, s2, s3)):
+        ctx.violation("sampling", site, "seed-not-reproducible", "the same seed (int / numpy int / generator) gave different draws", case)
+    tot = np.sum(np.array(s1), axis=0)
+    nn = num * size
+    for k in range(len(d.ps)):
+        p = float(d.ps[k])
+        # Hoeffding: P(|freq - p| > t) <= 2 exp(-2 nn t^2); t chosen for a false-alarm probability of 1e-12 per entry (sound for every nn)
+        if abs(tot[k] / nn - p) > np.sqrt(np.log(2e12) / (2 * nn)):
+            ctx.violation("sampling", site, "frequency", "entry %d: frequency %.5f for probability %.5f (%d draws)" % (k, tot[k] / nn, p, nn), dict(case, k=k))
+
+
+def sub_sampling(ctx):
+    cases = []
+    for _ in range(ctx.n(25, 200)):
+        r = ctx.rng.choice([1, 2, 2, 3])
+        shape = [ctx.rng.randint(1, 4) for _ in range(r)]
+        ps = rand_tensor(ctx.rng, shape, zeros=True)
+        cases.append({"shape": shape, "ps": ["%d/%d" % (p.numerator, p.denominator) for p in ps], "num": ctx.rng.choice([1, 10, 200]),
+                      "size": ctx.rng.choice([1, 5, 40]), "seed": ctx.rng.randrange(2 ** 31)})
+    ctx.sample("sampling", cases[0])
+    ctx.run_cases("sampling", chk_sampling, cases)
+
+
 def sub_dist(ctx):
-    cases = gen_dist_cases(ctx, ctx.n(150, 1500))
+    wide = 4 if (ctx.quick and getattr(ctx, "tie_broken", False)) else 1       # translator tie broken: search harder for a failing input
+    cases = gen_dist_cases(ctx, ctx.n(150 * wide, 1500))
     ctx.sample("dist", cases[0])
     ctx.run_cases("dist", chk_dist, cases)
+    bc = gen_boundary_cases(ctx, ctx.n(160 * wide, 1200))
+    ctx.sample("dist", bc[0]); ctx.sample("dist", bc[-1])
+    ctx.run_cases("dist", chk_dist, bc)
+    ctx.run_cases("dist", chk_validate, gen_validate_cases(ctx, ctx.n(120 * wide, 1000)))
 
 
 # ------------------------------------------------------------------ ensembles
@@ -287,6 +549,7 @@ def chk_ensemble(ctx, case):
         ctx.count("ensemble", key=(tuple(shape), idx), nontrivial=len(shape) >= 2)
         if k_impl != k_model:
             ctx.violation("ensemble", "StateEnsemble.state", "layout", "state(%s) is entry %d, distribution index is %d" % (idx, k_impl, k_model), dict(case, idx=list(idx)))
+    index_probe(ctx, "ensemble", "StateEnsemble.state", lambda a: se.state(a).k, shape, [float(k) for k in range(n)], case, n * 5 + len(shape))
 
 
 def sub_ensemble(ctx):
@@ -316,48 +579,263 @@ def _instrument(rs, d, m):
     return ks
 
 
+def _proj_instrument(rs, d, groups, m, rot):
+    """projective instrument with m outcomes: outcome x projects onto the span of the basis vectors k with groups[k] == x
+    (an outcome without vectors has Kraus operator EXACTLY 0), followed by an outcome-dependent unitary;
+    basis = permuted computational basis (exact zeros) or a Haar-rotated one.  returns (kraus list, basis U)"""
+    u = _rand_unitary(rs, d) if rot else np.eye(d, dtype=complex)[:, rs.permutation(d)]
+    ks = []
+    for x in range(m):
+        proj = np.zeros((d, d), dtype=complex)
+        for k in range(d):
+            if groups[k] == x:
+                proj += np.outer(u[:, k], u[:, k].conj())
+        ks.append((_rand_unitary(rs, d) @ proj) if any(g == x for g in groups) else proj)
+    return ks, u
+
+
+def _with_zero_outcomes(rs, d, m, zero_at):
+    """generic instrument whose outcomes listed in zero_at never occur (Kraus operator exactly 0)"""
+    live = _instrument(rs, d, m - len(zero_at))
+    out, it = [], iter(live)
+    for x in range(m):
+        out.append(np.zeros((d, d), dtype=complex) if x in zero_at else next(it))
+    return out
+
+
 def chk_ensemble_mprocess(ctx, case):
-    """a state measured once / twice by instruments with DIFFERENT outcome counts: the ensemble's distribution
-    and states must be laid out by the same (row-major, earlier measurement first) multi-index"""
+    """a state measured once / twice / three times by instruments with DIFFERENT outcome counts: the ensemble's
+    distribution and states must be laid out by the same (row-major, earlier measurement first) multi-index, the WHOLE
+    (probability, state) table is compared with the Born rule.  Cases with "first" are projective first measurements of an
+    input that is an eigenstate (or a mixture of some eigenstates) of that measurement, and later instruments may have
+    outcomes that never occur: zero-probability outcomes then sit in EVERY position of the table, not only at its end."""
     from quara.objects.composite_system_typical import generate_composite_system
     from quara.objects.operators import compose_qoperations
     from quara.objects.mprocess import MProcess
     from quara.objects.state import State
     from quara.objects.gate import to_hs_from_kraus_matrices
+    from quara.objects.state import to_vec_from_density_matrix_with_sparsity
+    import warnings
     m = ctx.get_model()
     rs = np.random.RandomState(case["seed"])
     kind, d = case["sys"], (2 if case["sys"] == "qubit" else 3)
-    c = generate_composite_system(kind, 1)
-    a = rs.normal(size=(d, d)) + 1j * rs.normal(size=(d, d))
-    rho = a @ a.conj().T; rho /= np.trace(rho).real
-    from quara.objects.state import to_vec_from_density_matrix_with_sparsity
-    st = State(c, to_vec_from_density_matrix_with_sparsity(c, rho).real.astype(float), is_physicality_required=False)
-    chains = [_instrument(rs, d, n) for n in case["counts"]]
-    mps = [MProcess(c, [to_hs_from_kraus_matrices(c, [k]) for k in ks], is_physicality_required=False) for ks in chains]
-    ens = compose_qoperations(mps[0], st)
-    for mp in mps[1:]:
-        ens = compose_qoperations(mp, ens)
+    c = _csys(kind)
     shape = list(case["counts"])
-    if list(ens.prob_dist.shape) != shape:
-        ctx.violation("ensemble_mprocess", "compose MProcess on state/ensemble", "shape", "ensemble shape %s, expected %s" % (ens.prob_dist.shape, shape), case)
+    first = case.get("first")
+    zero_at = case.get("zero_at") or [[] for _ in shape]
+    chains = []
+    if first:
+        ks, u = _proj_instrument(rs, d, first["groups"], shape[0], first["rot"])
+        chains.append(ks)
+        w = np.array([float(Fraction(x)) for x in first["weights"]])
+        rho = sum(w[k] * np.outer(u[:, k], u[:, k].conj()) for k in range(d))
+    else:
+        a = rs.normal(size=(d, d)) + 1j * rs.normal(size=(d, d))
+        rho = a @ a.conj().T; rho /= np.trace(rho).real
+    for pos in range(len(chains), len(shape)):
+        chains.append(_with_zero_outcomes(rs, d, shape[pos], zero_at[pos]) if zero_at[pos] else _instrument(rs, d, shape[pos]))
+    with warnings.catch_warnings():
+        warnings.simplefilter("ignore")
+        st = State(c, to_vec_from_density_matrix_with_sparsity(c, rho).real.astype(float), is_physicality_required=False)
+        mps = [MProcess(c, [to_hs_from_kraus_matrices(c, [k]) for k in ks], is_physicality_required=False) for ks in chains]
+        ens = compose_qoperations(mps[0], st)
+        for mp in mps[1:]:
+            ens = compose_qoperations(mp, ens)
+    site = "compose MProcess on state/ensemble"
+    total = int(np.prod(shape))
+    if list(ens.prob_dist.shape) != shape or len(ens.prob_dist.ps) != total or len(ens.states) != total:
+        ctx.violation("ensemble_mprocess", site, "shape", "ensemble shape %s with %d probabilities / %d states, expected %s" % (ens.prob_dist.shape, len(ens.prob_dist.ps), len(ens.states), shape), case)
         return
+    born = np.zeros(shape)
+    nzero_nonlast = 0
     for idx in itertools.product(*[range(n) for n in shape]):
         x = rho
         for ks, i in zip(chains, idx):
             x = ks[i] @ x @ ks[i].conj().T
         p = np.trace(x).real
+        born[idx] = p
         k_model = int(m.call("idx.serial_from_multi", [len(shape)] + shape + list(idx))[0])
-        ctx.count("ensemble_mprocess", key=(case["seed"], tuple(shape), idx), nontrivial=len(shape) >= 2 and len(set(shape)) > 1)
+        if p < 1e-12 and k_model < total - 1:
+            nzero_nonlast += 1
+        ctx.count("ensemble_mprocess", key=(case["seed"], tuple(shape), idx, bool(first)), nontrivial=len(shape) >= 2 and len(set(shape)) > 1)
         got_p = float(ens.prob_dist[tuple(idx)]) if len(idx) > 1 else float(ens.prob_dist[int(idx[0])])
         if abs(got_p - p) > 1e-9 or abs(float(ens.prob_dist.ps[k_model]) - p) > 1e-9:
-            ctx.violation("ensemble_mprocess", "compose MProcess on state/ensemble", "probability-layout", "outcome %s: probability %s (flat entry %s), Born rule gives %s" % (idx, got_p, ens.prob_dist.ps[k_model], p), dict(case, idx=list(idx)))
+            ctx.violation("ensemble_mprocess", site, "probability-layout", "outcome %s: probability %s (flat entry %s), Born rule gives %s" % (idx, got_p, ens.prob_dist.ps[k_model], p), dict(case, idx=list(idx)))
             continue
         if p > 1e-6:
             post = x / p
             got = ens.state(tuple(idx) if len(idx) > 1 else int(idx[0])).to_density_matrix()
             got2 = ens.states[k_model].to_density_matrix()
             if np.abs(got - post).max() > 1e-8 or np.abs(got2 - post).max() > 1e-8:
-                ctx.violation("ensemble_mprocess", "compose MProcess on state/ensemble", "state-layout", "outcome %s: post-measurement state differs from K rho K^dag / p by %.3g" % (idx, np.abs(got - post).max()), dict(case, idx=list(idx)))
+                ctx.violation("ensemble_mprocess", site, "state-layout", "outcome %s: post-measurement state differs from K rho K^dag / p by %.3g" % (idx, np.abs(got - post).max()), dict(case, idx=list(idx)))
+    # zero-probability FIRST outcomes (the class the layout depends on): position of the impossible first outcomes
+    p_first = born.reshape(shape[0], -1).sum(axis=1)
+    zf = [i for i in range(shape[0]) if p_first[i] < 1e-12]
+    lab = "generic" if not first else ("first-outcome-impossible:" + ("none" if not zf else "last-only" if zf == [shape[0] - 1] else "non-last"))
+    ctx.count("ensemble_mprocess", key=(case["seed"], tuple(shape), "table", bool(first)), nontrivial=len(shape) >= 2, label=lab + ("/zero-entries-before-end" if nzero_nonlast else ""))
+    # the joint's marginal over the first k variables is the distribution after the first k measurements
+    for kk in range(1, len(shape)):
+        with warnings.catch_warnings():
+            warnings.simplefilter("ignore")
+            mg = ens.prob_dist.marginalize(list(range(kk)))
+        e = born.reshape(int(np.prod(shape[:kk])), -1).sum(axis=1)
+        if list(mg.shape) != shape[:kk] or not flow.allclose(list(mg.ps), list(e), 1e-8):
+            ctx.violation("ensemble_mprocess", site, "marginal-of-joint", "marginal over the first %d measurement(s) is %s, their own outcome distribution is %s" % (kk, list(mg.ps), list(e)), case)
+
+
+_CSYS = {}
+
+
+def _csys(kind):
+    from quara.objects.composite_system_typical import generate_composite_system
+    if kind not in _CSYS:
+        _CSYS[kind] = generate_composite_system(kind, 1)
+    return _CSYS[kind]
+
+
+def gen_eigen_cases(ctx, n):
+    """first measurement projective, input = eigenstate / mixture of eigenstates: every position of the certain outcome"""
+    rng = ctx.rng
+    cases = []
+    i = 0
+    while len(cases) < n:
+        sys_ = ["qubit", "qutrit", "qutrit"][i % 3]
+        d = 2 if sys_ == "qubit" else 3
+        counts = rng.choice([[2, 3], [3, 2], [3, 3], [2, 2], [4, 2], [3, 2, 2], [2, 3, 2], [4, 3]])
+        m0 = counts[0]
+        groups = [rng.randrange(m0) for _ in range(d)]
+        # the input's support: one eigenvector (pure eigenstate) or, for the qutrit, sometimes two
+        supp = rng.sample(range(d), 1 if (d == 2 or rng.random() < 0.6) else 2)
+        # steer the certain outcome through every position: force the supported vectors' outcome
+        target = i % m0
+        groups[supp[0]] = target
+        ws = [Fraction(0)] * d
+        if len(supp) == 1:
+            ws[supp[0]] = Fraction(1)
+        else:
+            a = Fraction(rng.randint(1, 7), 8)
+            ws[supp[0]], ws[supp[1]] = a, 1 - a
+        zero_at = [[]] + [([rng.randrange(mm)] if (mm >= 3 and rng.random() < 0.4) else []) for mm in counts[1:]]
+        cases.append({"seed": rng.randrange(10 ** 6), "sys": sys_, "counts": counts, "zero_at": zero_at,
+                      "first": {"groups": groups, "rot": rng.random() < 0.5, "weights": ["%d/%d" % (w.numerator, w.denominator) for w in ws]}})
+        i += 1
+    return cases
+
+
+def chk_ensemble_zero(ctx, case):
+    """an ensemble whose distribution is the all-zero distribution, measured: shape old + new, all probabilities 0"""
+    from quara.objects.operators import compose_qoperations
+    from quara.objects.mprocess import MProcess
+    from quara.objects.state import State
+    from quara.objects.state_ensemble import StateEnsemble
+    from quara.objects.multinomial_distribution import MultinomialDistribution as MD
+    from quara.objects.gate import to_hs_from_kraus_matrices
+    import warnings
+    rs = np.random.RandomState(case["seed"])
+    c = _csys("qubit")
+    shape = list(case["shape"]); mm = case["m"]
+    n = int(np.prod(shape))
+    with warnings.catch_warnings():
+        warnings.simplefilter("ignore")
+        states = [State(c, np.zeros(4), is_physicality_required=False) for _ in range(n)]
+        se = StateEnsemble(states, MD(np.zeros(n), shape=tuple(shape)))
+        mp = MProcess(c, [to_hs_from_kraus_matrices(c, [k]) for k in _instrument(rs, 2, mm)], is_physicality_required=False)
+        ens = compose_qoperations(mp, se)
+    ctx.count("ensemble_mprocess", key=("zero", tuple(shape), mm), nontrivial=True, label="zero-distribution")
+    if list(ens.prob_dist.shape) != shape + [mm] or len(ens.states) != n * mm or np.abs(ens.prob_dist.ps).max() != 0 or not ens.prob_dist.is_zero_dist:
+        ctx.violation("ensemble_mprocess", "compose MProcess on state/ensemble", "zero-distribution", "zero ensemble of shape %s measured with %d outcomes: shape %s ps %s" % (shape, mm, ens.prob_dist.shape, list(ens.prob_dist.ps)), case)
+
+
+def chk_ensemble_skeleton(ctx, case):
+    """the list bookkeeping of operators._compose_qoperations_MProcess_StateEnsemble on its own: the per-state measurement is replaced
+    by a stub that returns TAGGED entries, so the layout of the produced (states, probabilities, shape) is compared with the model's
+    measure_all (Model/C16_Ensemble.v, theorem C16_measure_all_layout) for arbitrary old shapes, instrument outcome SHAPES (also
+    multi-dimensional) and zero-probability old entries in every position — independently of any numerics"""
+    from quara.objects import operators as ops
+    from quara.objects.state_ensemble import StateEnsemble
+    from quara.objects.multinomial_distribution import MultinomialDistribution as MD
+    import types, warnings
+    m = ctx.get_model()
+    osh, msh = case["old_shape"], case["mshape"]
+    n, mm = int(np.prod(osh)), int(np.prod(msh))
+    p_old = [float(Fraction(x)) for x in case["p_old"]]
+    cond = [[float(Fraction(x)) for x in row] for row in case["cond"]]
+
+    class Tag:
+        def __init__(self, e, j=None): self.e, self.j = e, j
+
+        def generate_zero_obj(self): return Tag(-1, -1)
+    old_states = [Tag(e) for e in range(n)]
+    with warnings.catch_warnings():
+        warnings.simplefilter("ignore")
+        se = StateEnsemble(list(old_states), MD(np.array(p_old), shape=tuple(osh)))
+    w_old = [float(x) for x in se.prob_dist.ps]
+    fake = types.SimpleNamespace(shape=tuple(msh), hss=[None] * mm, eps_zero=1e-8, mode_sampling=False)
+
+    def stub(elem1, state_old, weight=1.0):
+        return [Tag(state_old.e, j) for j in range(mm)], [weight * c for c in cond[state_old.e]]
+    saved = ops._compose_qoperations_MProcess_State_for_States
+    ops._compose_qoperations_MProcess_State_for_States = stub
+    try:
+        with warnings.catch_warnings():
+            warnings.simplefilter("ignore")
+            ens = ops._compose_qoperations_MProcess_StateEnsemble(fake, se)
+    finally:
+        ops._compose_qoperations_MProcess_State_for_States = saved
+    site = "operators._compose_qoperations_MProcess_StateEnsemble"
+    nsh = osh + msh
+    if list(ens.prob_dist.shape) != nsh or len(ens.states) != n * mm or len(ens.prob_dist.ps) != n * mm:
+        ctx.violation("ensemble_skeleton", site, "shape", "shape %s, %d states, %d probabilities; expected shape %s" % (ens.prob_dist.shape, len(ens.states), len(ens.prob_dist.ps), nsh), case)
+        return
+    expect = np.array([w_old[e] * cond[e][j] for e in range(n) for j in range(mm)])
+    if (expect < 1e-8).any() and expect.sum() > 0:
+        expect = np.where(expect < 1e-8, 0.0, expect); expect = expect / expect.sum()
+    codes = [float(e * mm + j) for e in range(n) for j in range(mm)]
+    zpos = [e for e in range(n) if w_old[e] == 0]
+    ctx.count("ensemble_skeleton", key=("table", tuple(osh), tuple(msh), tuple(case["p_old"])), nontrivial=True,
+              label="old-zero:" + ("none" if not zpos else "last-only" if zpos == [n - 1] else "non-last") + ("/mshape-rank%d" % len(msh)))
+    for idx in itertools.product(*[range(k) for k in nsh]):
+        e_m, code, total = [int(v) for v in m.call("ens.measured_entry", [len(osh)] + osh + [len(msh)] + msh + [len(nsh)] + list(idx), codes)]
+        j_m = code - e_m * mm
+        st = ens.state(tuple(idx)) if len(idx) > 1 else ens.state(int(idx[0]))
+        k_flat = int(m.call("idx.serial_from_multi", [len(nsh)] + nsh + list(idx))[0])
+        ctx.count("ensemble_skeleton", key=(tuple(osh), tuple(msh), tuple(case["p_old"]), idx), nontrivial=len(osh) + len(msh) >= 2)
+        pr = float(ens.prob_dist[tuple(idx)]) if len(idx) > 1 else float(ens.prob_dist[int(idx[0])])
+        # a zero-probability OLD entry yields zero objects: which ones does not matter, their probability must be 0 in place
+        if w_old[e_m] == 0:
+            if pr != 0:
+                ctx.violation("ensemble_skeleton", site, "layout", "entry %s belongs to the impossible old entry %d but has probability %s" % (idx, e_m, pr), dict(case, idx=list(idx)))
+            continue
+        if (st.e, st.j) != (e_m, j_m) or total != n * mm or abs(pr - expect[k_flat]) > 1e-12:
+            ctx.violation("ensemble_skeleton", site, "layout", "entry %s: state of (old entry %s, outcome %s) with probability %s; model: (old entry %d, outcome %d), probability %s" % (
+                idx, st.e, st.j, pr, e_m, j_m, expect[k_flat]), dict(case, idx=list(idx)))
+    if [float(x) for x in se.prob_dist.ps] != w_old or any(a is not b for a, b in zip(se.states, old_states)):
+        ctx.violation("ensemble_skeleton", site, "mutates-argument", "the measured ensemble was changed by the call", case)
+
+
+def sub_ensemble_skeleton(ctx):
+    rng = ctx.rng
+    cases = []
+    for i in range(ctx.n(40, 300)):
+        osh = rng.choice([[2], [3], [4], [2, 2], [2, 3], [3, 2], [1, 3]])
+        msh = rng.choice([[2], [3], [2, 2], [2, 3], [1], [4]])
+        n, mm = int(np.prod(osh)), int(np.prod(msh))
+        w = [rng.randint(1, 9) for _ in range(n)]
+        for z in rng.sample(range(n), rng.randint(0, n - 1)):
+            w[z] = 0
+        if i % 3 == 0 and n >= 2:
+            w[i % (n - 1)] = 0          # an impossible old entry that is NOT the last one
+            if sum(w) == 0:
+                w[n - 1] = 1
+        cond = []
+        for e in range(n):
+            c = [rng.randint(0, 5) for _ in range(mm)]
+            if sum(c) == 0:
+                c[rng.randrange(mm)] = 1
+            cond.append(["%d/%d" % (x, sum(c)) for x in c])
+        cases.append({"old_shape": osh, "mshape": msh, "p_old": ["%d/%d" % (x, sum(w)) for x in w], "cond": cond})
+    ctx.sample("ensemble_skeleton", cases[0])
+    ctx.run_cases("ensemble_skeleton", chk_ensemble_skeleton, cases)
 
 
 def sub_ensemble_mprocess(ctx):
@@ -365,20 +843,96 @@ def sub_ensemble_mprocess(ctx):
     for i in range(ctx.n(24, 200)):
         counts = ctx.rng.choice([[2], [3], [2, 3], [3, 2], [2, 4], [4, 3], [3, 2, 2], [2, 3, 4]][: (5 if ctx.quick else 8)])
         cases.append({"seed": ctx.rng.randrange(10 ** 6), "sys": ctx.rng.choice(["qubit", "qubit", "qutrit"]), "counts": counts})
-    ctx.sample("ensemble_mprocess", cases[0])
+    cases += gen_eigen_cases(ctx, ctx.n(48, 400))
+    ctx.sample("ensemble_mprocess", cases[0]); ctx.sample("ensemble_mprocess", cases[-1])
     ctx.run_cases("ensemble_mprocess", chk_ensemble_mprocess, cases)
+    zc = [{"seed": ctx.rng.randrange(10 ** 6), "shape": sh, "m": mm} for sh, mm in [([2], 2), ([3], 2), ([2, 3], 2), ([2], 3)]]
+    ctx.run_cases("ensemble_mprocess", chk_ensemble_zero, zc)
 
 
-SUBS = [("index_maps", sub_index_maps), ("dist", sub_dist), ("ensemble", sub_ensemble), ("ensemble_mprocess", sub_ensemble_mprocess)]
-FNS = {"index_maps": chk_index_shape, "dist": chk_dist, "ensemble": chk_ensemble, "ensemble_mprocess": chk_ensemble_mprocess}
+SUBS = [("index_maps", sub_index_maps), ("dist", sub_dist), ("ensemble", sub_ensemble), ("ensemble_mprocess", sub_ensemble_mprocess),
+        ("ensemble_skeleton", sub_ensemble_skeleton), ("sampling", sub_sampling)]
+FNS = {"index_maps": chk_index_shape, "dist": chk_dist, "ensemble": chk_ensemble, "ensemble_mprocess": chk_ensemble_mprocess,
+       "ensemble_skeleton": chk_ensemble_skeleton, "sampling": chk_sampling}
+
+
+def regen_md(ctx):
+    """translator tie for the probability bookkeeping (same protocol as flow.regen_check, with this property's own translator
+    gen/c16_py2coq.py): regenerate Gallina definitions of validate_prob_dist, MultinomialDistribution.__init__ / __getitem__ /
+    marginalize and StateEnsemble.state from the CURRENT source, compile them, re-check coq/gen/C16_MdEquiv.v
+    (regenerated = hand-written model on all inputs; transported theorems).  returns (ok, info)"""
+    import os, re, shutil, subprocess, sys
+    import runner
+    V = runner.V
+    scratch = os.path.join(ctx.scratch, "gen")
+    os.makedirs(scratch, exist_ok=True)
+    gen_v = os.path.join(scratch, "Gen_c16_md.v")
+    equiv = os.path.join(V, "coq", "gen", "C16_MdEquiv.v")
+    src = open(equiv).read()
+    src_nc = re.sub(r"\(\*.*?\*\)", " ", src, flags=re.S)
+    thms = re.findall(r"^\s*Theorem\s+([\w']+)", src_nc, flags=re.M)
+    ctx.theorems = list(ctx.theorems) + [t for t in thms if t not in ctx.theorems]
+    ctx.obligations += len(thms)
+    r = subprocess.run([sys.executable, os.path.join(V, "gen", "c16_py2coq.py"), os.environ.get("VERIF_REPO", "/repo"), gen_v],
+                       capture_output=True, text=True, timeout=120)
+    if r.returncode != 0:
+        return False, {"theorem": thms[0], "error": "translator rejected the source (outside its subset): " + (r.stdout + r.stderr)[-600:]}
+    q = ["-Q", os.path.join(V, "coq", "theories"), "QV", "-Q", scratch, "QVGen"]
+    r = subprocess.run(["timeout", "300", "coqc"] + q + [gen_v], capture_output=True, text=True)
+    if r.returncode != 0:
+        return False, {"theorem": thms[0], "error": "regenerated definitions do not compile: " + (r.stdout + r.stderr)[-600:]}
+    dst = os.path.join(scratch, "C16_MdEquiv.v")
+    shutil.copy(equiv, dst)
+    r = subprocess.run(["timeout", "600", "coqc"] + q + [dst], capture_output=True, text=True)
+    out = r.stdout + r.stderr
+    if r.returncode != 0:
+        m_ = re.search(r"line (\d+), characters", out)
+        thm = None
+        if m_:
+            upto = "\n".join(src.splitlines()[:int(m_.group(1))])
+            names = re.findall(r"^\s*(?:Theorem|Lemma)\s+([\w']+)", upto, flags=re.M)
+            thm = names[-1] if names else None
+        return False, {"theorem": thm, "error": out[-800:]}
+    blocks = runner.parse_assumptions(out)
+    bad = [a for closed, axs in blocks for a in axs if a not in runner.ALLOWED_AXIOMS and a.split(".")[-1] not in runner.ALLOWED_AXIOMS]
+    if len(blocks) != len(thms) or bad:
+        return False, {"theorem": thms[0], "error": "assumption gate on regenerated proofs: %d blocks / %d theorems, disallowed %s" % (len(blocks), len(thms), bad)}
+    for t, (closed, axs) in zip(thms, blocks):
+        ctx.axioms[t] = "closed" if closed else sorted(set(axs))
+    ctx.discharged += len(thms)
+    return True, {}
 
 
 def run(ctx):
+    import runner
     ctx.rule = ("index maps: exhaustive enumeration of shapes x serial indices, implementation vs extracted Coq model and vs the "
                 "row-major/inverse predicates; distributions: seeded random tensors with exact zeros and sub-threshold entries, "
-                "all listed subsets/orders of retained axes and conditioning assignments, plus a malformed stream; "
-                "non-trivial = at least two variables (rank >= 2), distinct = distinct (shape, data, query)")
-    flow.standard_run(ctx, SUBS, regens=[("index_util", "C16_Equiv")])
+                "all listed subsets/orders of retained axes and conditioning assignments, a malformed stream, EXACT boundary values "
+                "(entries at / one ulp off the zero threshold and the validation tolerance, no band) and every kind of index argument; "
+                "ensembles: generic inputs and eigenstate inputs of a projective first measurement (impossible outcomes in every "
+                "position) against the Born rule; non-trivial = at least two variables (rank >= 2), distinct = distinct (shape, data, query)")
+    # flow.standard_run, plus this property's own translator tie (flow.regen_check is bound to gen/py2coq.py)
+    ok, info = runner.check_props(ctx)
+    ok1, info1 = flow.regen_check(ctx, "index_util", "C16_Equiv")
+    ctx.obligations += getattr(ctx, "regen_obligations", 0)
+    ctx.discharged += getattr(ctx, "regen_discharged", 0)
+    ok2, info2 = regen_md(ctx)
+    ctx.tie_broken = not (ok1 and ok2)
+    for okx, infox, what in ((ok1, info1, "index_util / coq/gen/C16_Equiv.v"), (ok2, info2, "distribution code / coq/gen/C16_MdEquiv.v")):
+        if not okx:
+            ok, info = False, infox
+            ctx.note("regenerated-model obligations (%s) not discharged: %s — the sweeps are widened" % (what, str(infox)[:400]))
+    if not ok:
+        ctx.discharged = min(ctx.discharged, ctx.obligations - 1)
+    for name, fn in SUBS:
+        if ctx.only is None or name in ctx.only:
+            fn(ctx)
+    if not ok and not ctx.violations:
+        ctx.violation("theorems", "Props/%s.v" % ctx.prop_id, "theorem-broken:%s" % info.get("theorem"),
+                      "theorem %s no longer checks: %s" % (info.get("theorem"), info.get("error", "")[-400:]),
+                      {"theorem": info.get("theorem"), "error": info.get("error")}, no_input=True)
+    elif not ok:
+        ctx.note("theorem obligations not discharged: %s" % info)
 
 
 def replay(ctx, doc):
